@@ -5,6 +5,8 @@
 //! oracle rules). Hangs / aborts are only observable from outside: run cases through `sup::supervise`.
 
 pub mod fontcase;
+pub mod glyfgraph;
+pub mod iftdrv;
 pub mod skdrv;
 pub mod cffprog;
 pub mod sup;
@@ -22,6 +24,8 @@ pub fn drivers() -> Vec<(&'static str, Driver)> {
         ("skrifa", drive_skrifa as Driver),
         ("ttprog", ttprog::drive as Driver),
         ("cffprog", cffprog::drive as Driver),
+        ("ift", iftdrv::drive as Driver),
+        ("glyfgraph", glyfgraph::drive as Driver),
     ]
 }
 
@@ -59,9 +63,10 @@ pub fn drive_skrifa(spec: &Value) -> CaseOut {
     let Some(fc) = fontcase::FontCase::from_json(&spec["font"]) else {
         return bad_case("skrifa case without font".into());
     };
-    let Some(plan) = skdrv::Plan::named(spec["plan"].as_str().unwrap_or("")) else {
+    let Some(mut plan) = skdrv::Plan::named(spec["plan"].as_str().unwrap_or("")) else {
         return bad_case("skrifa case with unknown plan".into());
     };
+    plan.pristine = fc.devs.is_empty();
     let Some(bytes) = fc.bytes() else {
         return bad_case(format!("font case does not apply: {}", fc.to_json()));
     };
@@ -90,10 +95,11 @@ pub fn gen_corpus_cases(plan: &str) -> Vec<Value> {
 
 /// The deviation space of driver 1: for every corpus font accepted by `font_filter`, every table of
 /// `fontcase::TABLE_KINDS` it has, every single deviation (`fontcase::table_deviations`) of that table's first
-/// `max_bytes(table)` bytes. Order: font, table kind, offset. Returned as (corpus index, deviation).
+/// `max_bytes(font, table)` bytes. Order: font, table kind, offset. Returned as (corpus index, deviation).
 pub fn gen_deviation_space(
     font_filter: &dyn Fn(&str, &[u8]) -> bool,
-    max_bytes: &dyn Fn(&str) -> usize,
+    max_bytes: &dyn Fn(&str, &str) -> usize,
+    rich: bool,
 ) -> Vec<(usize, fontcase::Dev)> {
     let mut out = vec![];
     for (fi, (name, data)) in fontcase::corpus().iter().enumerate() {
@@ -105,7 +111,7 @@ pub fn gen_deviation_space(
             let Some((_, off, len)) = dir.iter().find(|(t, _, _)| t == kind) else {
                 continue;
             };
-            for d in fontcase::table_deviations(kind, &data[*off..*off + *len], max_bytes(kind)) {
+            for d in fontcase::table_deviations_ext(kind, &data[*off..*off + *len], max_bytes(name, kind), rich) {
                 out.push((fi, d));
             }
         }
@@ -113,7 +119,29 @@ pub fn gen_deviation_space(
     out
 }
 
+/// Tables that only feed metadata queries (no outline / hinting path reads them).
+pub const META_ONLY_TABLES: [&str; 4] = ["name", "post", "OS/2", "CPAL"];
+
+/// Seeds whose every configuration is expensive (AdobeBlank: a cmap covering all of Unicode that the
+/// auto-hinter walks per instance; Roboto: long glyph programs): deviated over fewer bytes.
+pub const HEAVY_SEEDS: [&str; 2] = [
+    "klippa/test-data/fonts/AdobeBlank-Regular.ttf",
+    "klippa/test-data/fonts/Roboto-Regular.ttf",
+];
+pub const HEAVY_SEED_BYTES: usize = 32;
+
 pub fn deviation_case(item: &(usize, fontcase::Dev), plan: &str) -> Value {
+    // metadata-only tables get the next smaller plan: quick "min" -> "meta", thorough "reduced" -> "min";
+    // the (larger) klippa fonts are deviated under "min" in thorough
+    let meta = META_ONLY_TABLES.contains(&item.1.table.as_str());
+    let klippa = fontcase::corpus()[item.0].0.starts_with("klippa/");
+    let plan = match (plan, meta, klippa) {
+        ("min", true, _) => "meta",
+        ("reduced", true, false) => "min",
+        ("reduced", true, true) => "meta",
+        ("reduced", false, true) => "min",
+        (p, _, _) => p,
+    };
     skrifa_case(
         &fontcase::FontCase {
             seed: fontcase::corpus()[item.0].0.clone(),
@@ -121,4 +149,255 @@ pub fn deviation_case(item: &(usize, fontcase::Dev), plan: &str) -> Value {
         },
         plan,
     )
+}
+
+// ---------------------------------------------------------------------------------------------
+// identities, narrowing and resumption (shared with c20)
+// ---------------------------------------------------------------------------------------------
+
+/// Identity of a supervisor-level failure (timeout / abort): driver + kind + innermost repo function
+/// (timeouts) or stage (aborts). No counters, no line numbers.
+pub fn failure_identity(driver: &str, f: &Failure) -> String {
+    match f.kind.as_str() {
+        "timeout" | "silent" => {
+            if f.function.is_empty() {
+                format!("{driver}: timeout in {}", f.stage)
+            } else {
+                format!("{driver}: timeout in {}", f.function)
+            }
+        }
+        _ => {
+            let class = if f.detail.contains("overflowed its stack") {
+                "stack overflow"
+            } else if f.detail.contains("memory allocation") {
+                "allocation failure abort"
+            } else {
+                "abort"
+            };
+            format!("{driver}: {class} in {}", f.stage)
+        }
+    }
+}
+
+/// Identity of an in-process violation. Panics: `<driver>: panic at <repo file> [<payload class>] in <operation>`
+/// — the site comes first so that one known-finding entry ending in `*` covers every operation that reaches
+/// the same defect. Oracle rules: `<driver>: <rule> in <operation>`.
+pub fn viol_identity(v: &Viol) -> String {
+    let (driver, stage) = v.op.split_once(": ").unwrap_or((v.op.as_str(), ""));
+    if v.kind == "panic" {
+        let p = v.panic_info();
+        format!("{driver}: panic at {} [{}] in {stage}", p.site(), p.kind())
+    } else {
+        format!("{driver}: {} in {stage}", v.kind)
+    }
+}
+
+/// Batch drivers: restrict the replay case to the sub-case that failed.
+pub fn narrow(case: &Value, sub: u64) -> Value {
+    let mut c = case.clone();
+    let batch = matches!(c["driver"].as_str(), Some("ttprog") | Some("cffprog")) && !c["o1"].is_null();
+    let batch = batch || (c["driver"] == "glyfgraph" && !c["s0"].is_null());
+    if batch && c["only"].is_null() {
+        c["only"] = json!(sub);
+        if c["driver"] == "ttprog" {
+            c["described"] = json!(ttprog::describe(&c));
+        }
+    }
+    c
+}
+
+
+/// Batch drivers: the follow-up case that continues a batch after the sub-case that killed the worker.
+pub fn resume_batch(case_json: &str, f: &Failure) -> Option<String> {
+    let mut c: Value = serde_json::from_str(case_json).ok()?;
+    let batch = (matches!(c["driver"].as_str(), Some("ttprog") | Some("cffprog")) && !c["o1"].is_null())
+        || (c["driver"] == "glyfgraph" && !c["s0"].is_null());
+    if !batch || !c["only"].is_null() {
+        return None;
+    }
+    c["from"] = json!(f.sub + 1);
+    Some(c.to_string())
+}
+
+/// Remove the report-only fields of a recorded case before re-executing it.
+pub fn strip_replay_fields(case: &Value) -> Value {
+    let mut c = case.clone();
+    if let Some(o) = c.as_object_mut() {
+        o.remove("observed");
+        o.remove("described");
+        o.remove("from");
+    }
+    c
+}
+
+// ---------------------------------------------------------------------------------------------
+// the phases of a run (case generators + bounds), shared with c20
+// ---------------------------------------------------------------------------------------------
+
+pub struct Phase {
+    pub label: &'static str,
+    pub n: u64,
+    pub get: Box<dyn Fn(u64) -> Value + Sync + Send>,
+    /// cases handed to a worker at a time
+    pub chunk: u64,
+    /// (key, value) pairs for `run.bound`
+    pub bounds: Vec<(String, Value)>,
+    pub sample: Value,
+}
+
+fn vec_phase(label: &'static str, cases: Vec<Value>, chunk: u64, sample_at: usize, bounds: Vec<(String, Value)>) -> Phase {
+    let sample = cases.get(sample_at.min(cases.len().saturating_sub(1))).cloned().unwrap_or(Value::Null);
+    let n = cases.len() as u64;
+    Phase {
+        label,
+        n,
+        get: Box::new(move |i| cases[i as usize].clone()),
+        chunk,
+        bounds,
+        sample,
+    }
+}
+
+/// All phases of the C02 run for a tier, in execution order. Err = a machinery gate failed.
+/// Environment knobs (development only): C02_DEV_BYTES, C02_DEV_PLAN, C02_TT_N3=full.
+pub fn phases(quick: bool) -> Result<Vec<Phase>, String> {
+    let pick = |q: usize, t: usize| if quick { q } else { t };
+    let mut out = vec![];
+    // 1a. unmodified corpus
+    let plan = if quick { "reduced" } else { "full" };
+    out.push(vec_phase(
+        "corpus",
+        gen_corpus_cases(plan),
+        1,
+        0,
+        vec![("corpus.plan".into(), skdrv::Plan::named(plan).unwrap().describe())],
+    ));
+    // 1b. one-byte / u16-boundary deviations of the corpus tables; byte budget per table: outline tables
+    // and the small fixed headers get more
+    let env_bytes: Option<usize> = std::env::var("C02_DEV_BYTES").ok().and_then(|s| s.parse().ok());
+    let deep = ["glyf", "CFF ", "CFF2", "gvar", "maxp", "head", "hhea"];
+    let (b_deep, b_other) = if quick { (128usize, 48usize) } else { (256, 160) };
+    let max_bytes = move |font: &str, t: &str| {
+        let b = env_bytes.unwrap_or(if deep.contains(&t) { b_deep } else { b_other });
+        if HEAVY_SEEDS.contains(&font) {
+            b.min(HEAVY_SEED_BYTES)
+        } else {
+            b
+        }
+    };
+    let dplan = std::env::var("C02_DEV_PLAN").unwrap_or(if quick { "min" } else { "reduced" }.to_string());
+    if skdrv::Plan::named(&dplan).is_none() {
+        return Err(format!("unknown plan {dplan}"));
+    }
+    let space = gen_deviation_space(&|name, _| !quick || name.starts_with("font-test-data/test_data/ttf/"), &max_bytes, !quick);
+    let bounds = vec![
+        ("deviations.max_bytes_per_table".into(), json!({"glyf,CFF ,CFF2,gvar,maxp,head,hhea": max_bytes("", "glyf"), "other": max_bytes("", "name"),
+            "heavy seeds (thorough only)": {"fonts": HEAVY_SEEDS, "bytes": HEAVY_SEED_BYTES}})),
+        ("deviations.seed_fonts".into(), json!(if quick { "font-test-data/test_data/ttf/*" } else { "whole corpus" })),
+        ("deviations.table_kinds".into(), json!(fontcase::TABLE_KINDS)),
+        (
+            "deviations.alphabet".into(),
+            json!({"byte": fontcase::BYTE_ALPHABET, "u16_be": fontcase::U16_ALPHABET,
+                   "u16_be_relative": if quick { json!("not in quick") } else { json!("len-2,len-1,len,len+1,pos,pos+1,pos+2,orig-1,orig+1") }}),
+        ),
+        ("deviations.plan".into(), skdrv::Plan::named(&dplan).unwrap().describe()),
+        (
+            "deviations.plan_for_klippa_fonts".into(),
+            if dplan == "reduced" { skdrv::Plan::named("min").unwrap().describe() } else { json!("n/a (quick deviates font-test-data fonts only)") },
+        ),
+        (
+            "deviations.plan_for_name_post_OS/2_CPAL".into(),
+            match dplan.as_str() {
+                "min" => skdrv::Plan::named("meta").unwrap().describe(),
+                "reduced" => skdrv::Plan::named("min").unwrap().describe(),
+                _ => json!("same"),
+            },
+        ),
+    ];
+    let sample = deviation_case(&space[space.len() / 2], &dplan);
+    let n = space.len() as u64;
+    let dp = dplan.clone();
+    out.push(Phase {
+        label: "deviations",
+        n,
+        get: Box::new(move |i| deviation_case(&space[i as usize], &dp)),
+        chunk: 4,
+        bounds,
+        sample,
+    });
+    // 2. TrueType program enumeration
+    let pre = ttprog::preludes();
+    let all_pre: Vec<usize> = (0..pre.len()).collect();
+    let maxp_used: Vec<usize> = if quick { vec![0, 1] } else { vec![0, 1, 2] };
+    let mut tt = ttprog::gen_cases(2, &all_pre, &maxp_used);
+    let mut bounds = vec![(
+        "ttprog.length2".to_string(),
+        json!({"slots": ttprog::SLOTS, "preludes": pre.iter().map(|p| p.0).collect::<Vec<_>>(),
+            "maxp": maxp_used.iter().map(|i| ttprog::MAXP_SETTINGS[*i].0).collect::<Vec<_>>(), "opcodes": 256,
+            "programs_per_slot_prelude_maxp": 1 + 256 + 65536, "sizes": ttprog::SIZES, "targets": ["Mono", "Smooth Normal"], "pedantic": [false, true]}),
+    )];
+    if !quick {
+        // length 3: the full 256^3 space for the empty and the index-bearing prelude under the small limits
+        let full = std::env::var("C02_TT_N3").as_deref() == Ok("full");
+        let n3_pre: Vec<usize> = if full { all_pre.clone() } else { vec![0, 4] };
+        let n3_maxp: Vec<usize> = if full { maxp_used.clone() } else { vec![0] };
+        let t3: Vec<Value> = ttprog::gen_cases(3, &n3_pre, &n3_maxp).into_iter().filter(|c| !c["o1"].is_null()).collect();
+        bounds.push((
+            "ttprog.length3".to_string(),
+            json!({"preludes": n3_pre.iter().map(|i| pre[*i].0).collect::<Vec<_>>(),
+                "maxp": n3_maxp.iter().map(|i| ttprog::MAXP_SETTINGS[*i].0).collect::<Vec<_>>(), "programs_per_slot_prelude_maxp": 16_777_216u64}),
+        ));
+        tt.extend(t3);
+    }
+    out.push(vec_phase("ttprog", tt, pick(16, 1) as u64, 300, bounds));
+    // 2b. composite glyph reference graphs
+    out.push(vec_phase(
+        "glyfgraph",
+        glyfgraph::gen_cases(),
+        1,
+        3,
+        vec![(
+            "glyfgraph".into(),
+            json!({"glyphs": 3, "shapes_per_glyph": glyfgraph::N_SHAPES, "fonts": glyfgraph::N_SHAPES.pow(3),
+                "chain_depths": glyfgraph::CHAIN_DEPTHS, "chain_ends": ["simple", "cycle to glyph 0"]}),
+        )],
+    ));
+    // 3. CFF charstring enumeration
+    cffprog::sanity().map_err(|e| format!("cffprog assembler gate: {e}"))?;
+    let cn = if quick { 2u32 } else { 3 };
+    out.push(vec_phase(
+        "cffprog",
+        cffprog::gen_cases(cn),
+        1,
+        5,
+        vec![(
+            "cffprog".into(),
+            json!({"max_tokens": cn, "token_alphabet": cffprog::tokens().len(),
+                "preludes": cffprog::preludes().iter().map(|p| p.0).collect::<Vec<_>>(),
+                "subrs": "global {self-call, return, call local 0}, local {self-call, return, call global 0}",
+                "draws": "unhinted unscaled + 13.5, hinted interpreter (CFF hinter) 13.5, auto-hinter 13.5"}),
+        )],
+    ));
+    // 4. IFT client tuples
+    let ift_bytes = pick(96, 4096);
+    let ift = iftdrv::gen_cases(ift_bytes, !quick);
+    let lv = iftdrv::levels(!quick);
+    let defs = iftdrv::defs();
+    let third = ift.len() / 3;
+    out.push(vec_phase(
+        "ift",
+        ift,
+        16,
+        third,
+        vec![(
+            "ift".into(),
+            json!({"scenarios": iftdrv::scenarios().iter().map(|s| s.name).collect::<Vec<_>>(),
+                "deviated_bytes_per_blob": ift_bytes,
+                "alphabet": {"byte": fontcase::BYTE_ALPHABET, "u16_be": fontcase::U16_ALPHABET, "u16_be_relative": "len-2,len-1,len,len+1,pos,pos+1,pos+2,orig-1,orig+1"},
+                "definitions": lv.defs.iter().map(|i| defs[*i].0).collect::<Vec<_>>(),
+                "decoders": lv.decoders.iter().map(|i| match iftdrv::DECODERS[*i] { None => "noop".to_string(), Some(k) => format!("fails at call {k}") }).collect::<Vec<_>>(),
+                "status_maps": lv.maps.iter().map(|i| iftdrv::STATUS_MAPS[*i]).collect::<Vec<_>>(), "rounds": 3}),
+        )],
+    ));
+    Ok(out)
 }
